@@ -17,7 +17,7 @@ EVIDENCE_DIR = os.path.join(VERIF, "evidence")
 KNOWN_FILE = os.path.join(VERIF, "known_findings.json")
 
 PROPS = [
-    "C01", "C02", "C03", "C04", "C05", "C06", "C07", "C09", "C10", "C11",
+    "C01", "C02", "C03", "C04", "C05", "C06", "C07", "C08", "C09", "C10", "C11",
     "C12", "C13", "C14", "C15", "C16", "C17", "C18", "C19", "C20",
 ]
 
